@@ -803,3 +803,16 @@ mutant("enc-aea-ignores-edge", "C09", GRAPH, AEA, "            less_ranks.append
 mutant("enc-aea-exactly-one", "C09", GRAPH, "        solver.ensure(count_true(less_ranks) <= 1)\n\n\ndef _division_connected(", "        solver.ensure(count_true(less_ranks) == 1)\n\n\ndef _division_connected(", "ENC-S")
 variant("enc-aea-flipped", "C09", GRAPH, AEA, "            less_ranks.append(is_active_edge[e] & (ranks[i] > ranks[j]))")
 variant("enc-aea-lt2", "C09", GRAPH, "        solver.ensure(count_true(less_ranks) <= 1)\n\n\ndef _division_connected(", "        solver.ensure(count_true(less_ranks) < 2)\n\n\ndef _division_connected(")
+
+# ---- C05 ---------------------------------------------------------------------------------------
+mutant("enc-div-list-equality", "C05", GRAPH, "            for v in range(n):\n                solver.ensure(region[v] == (division[v] == i))\n", "            solver.ensure(region == (division == i))\n", "ENC-S", "the original defect")
+# rank[i] >= rank[j] on forest edges is equivalent (forest edges force different ranks): triage reports undecided
+mutant("enc-div-no-label-eq", "C05", GRAPH, "spanning_forest[e].then((division[i] == division[j]) & (rank[i] != rank[j]))", "spanning_forest[e].then(rank[i] != rank[j])", "ENC-S")
+# dropping (rank[i] != rank[j]) on forest edges is harmless (equal-rank forest edges support nobody): triage reports undecided
+mutant("enc-div-root-count", "C05", GRAPH, "        solver.ensure(count_true(less_ranks) == is_root[i].cond(0, 1))\n    for i in range(num_regions):", "        solver.ensure(count_true(less_ranks) == is_root[i].cond(1, 0))\n    for i in range(num_regions):", "ENC-S")
+mutant("enc-div-empty-allowed", "C05", GRAPH, "            solver.ensure(count_true([r & (n == i) for r, n in zip(is_root, division)]) == 1)", "            solver.ensure(count_true([r & (n == i) for r, n in zip(is_root, division)]) <= 1)", "ENC-S")
+mutant("enc-div-roots-ignored-native", "C05", GRAPH, "                    solver.ensure(division[r] == i)\n        return", "                    pass\n        return", "ENC-S")
+mutant("enc-div-native-nonempty-dropped", "C05", GRAPH, "            if not allow_empty_group:\n                solver.ensure(count_true(region) >= 1)", "            if allow_empty_group:\n                solver.ensure(count_true(region) >= 1)", "ENC-S")
+mutant("alg-roots-conversion", "C05", GRAPH, "                    roots_conv.append(y * width + x)", "                    roots_conv.append(y * height + x)", "ALG-10")
+mutant("alg-roots-swapped", "C05", GRAPH, "                    roots_conv.append(y * width + x)", "                    roots_conv.append(x * width + y)", "ALG-10")
+variant("enc-div-flipped", "C05", GRAPH, "            less_ranks.append(spanning_forest[e] & (rank[i] > rank[j]))", "            less_ranks.append((rank[j] < rank[i]) & spanning_forest[e])")
